@@ -202,6 +202,9 @@ ANY_METHODS.update({
     "map": {"pure": False, "returns": SEQ(OBJ("RunResult")), "raises": ["BaseException"]},
     # a cache backend reached through an untyped parameter: the write may fail, returns nothing
     "set": {"pure": False, "returns": NONE_T, "raises": ["Exception"]},
+    # networkx edge view `G.edges(data=True)`: read as a pure function of the graph giving a sequence of
+    # (source name, target name, attribute dict) triples (assumed contract A4)
+    "edges": {"pure": True, "returns": SEQ(FIXTUP(STR, STR, DICT(STR, ANY))), "raises": []},
 })
 ANY_ATTRS.update({"runner": ANY, "map_config": ANY})
 OPAQUE = {
@@ -234,6 +237,9 @@ OPAQUE = {
     # graph/validation.py:_values_equal (assumed contract A4): total (catches ValueError/TypeError itself) and a pure
     # function of its two arguments; NOT assumed reflexive, symmetric or transitive
     "_values_equal": {"raises": [], "returns": BOOL, "pure": True},
+    # _typing.is_type_compatible (assumed contract A4; the relation itself is decided by the bounded type-universe oracle):
+    # total and a pure function of the two type objects
+    "is_type_compatible": {"raises": [], "returns": BOOL, "pure": True},
     # nodes/_rename.py:build_reverse_rename_map (assumed contract A4; its functional behaviour over rename HISTORIES is
     # decided by the bounded C06 harness only): total, returns a fresh dict[str, str] whose content is a deterministic
     # function of (history list, kind); the history list of a published node is never mutated
